@@ -19,7 +19,8 @@ ShapeDef ==
     c1po |-> [nbPub |-> 2, nbCommit |-> 1],
     c2   |-> [nbPub |-> 2, nbCommit |-> 2],
     c2i  |-> [nbPub |-> 1, nbCommit |-> 2],
-    c3   |-> [nbPub |-> 2, nbCommit |-> 3] ]
+    c3   |-> [nbPub |-> 2, nbCommit |-> 3],
+    c3r  |-> [nbPub |-> 2, nbCommit |-> 3] ]
 
 \* fixed G1 components of a proof
 G1Comps == {"L", "R", "O", "Z", "H0", "H1", "H2", "BatchH", "ZShiftH"}
